@@ -228,6 +228,46 @@ def kinds():
     return list(seen.values())
 
 
+# The lifetime of each message kind (seconds), written down from the documented rules (pkt_lifespan's table, the 'lifespan' entries of
+# CODES_SCHEMA, the OpenTherm data-id classes) - the reference the statement's "a lifetime fixed by its kind" is judged against. Copied,
+# not imported: a change that makes a kind live shorter or longer than this shows up as expired-before / not-expired-after.
+REF_CODE_LIFE = {"0004": 86400, "000A": 86400, "0100": 86400, "1060": 86400, "10A0": 14400, "1100": 86400, "1260": 3600, "12A0": 3600, "12B0": 3600,
+                 "1F41": 14400, "2309": 1800, "2349": 14400, "2E04": 14400, "30C9": 3600, "313F": 3, "3150": 1200}  # fmt: skip
+REF_OT_SCHEMA, REF_OT_PARAMS = {0x03, 0x06, 0x7F}, {0x0E, 0x0F, 0x30, 0x31, 0x38, 0x39}
+
+
+def ref_life(verb: str, code: str, payload: str, has_array: bool):
+    """-> seconds, or None where the rule is not a constant of the kind (1F09: from the payload, checked on its own)."""
+    if verb in ("RQ", " W"):
+        return 0
+    if code in ("0005", "000C", "0404", "10E0"):
+        return 86400
+    if code == "0006":
+        return 3600
+    if code == "000A" and has_array:
+        return 3600
+    if code == "1F09":
+        return None
+    if code == "1FC9" and verb == "RP":
+        return 86400
+    if code in ("2309", "30C9") and has_array:
+        return 360
+    if code == "3220":
+        mid = int(payload[4:6], 16)
+        return 21600 * 2.1 if mid in REF_OT_SCHEMA else 3600 * 2.1 if mid in REF_OT_PARAMS else 300 * 2.1
+    return REF_CODE_LIFE.get(code, 3600)
+
+
+def ot_frames():
+    """An RP|3220 (Read-Ack, even parity) for every data-id: the lifetime of an OpenTherm message depends on the class of its id."""
+    for mid in range(256):
+        for val in (0x0000, 0x1900):
+            word = (0x40 << 24) | (mid << 16) | val
+            if bin(word).count("1") % 2:
+                word |= 0x80 << 24
+            yield f"RP --- {OTB} 18:006402 --:------ 3220 005 00{word:08X}"
+
+
 def check_expiry(t: E.Tally, frame: str, lifetime_from_payload: float | None = None) -> None:
     from ramses_tx import exceptions as exc
     from ramses_tx.message import Message
@@ -248,8 +288,12 @@ def check_expiry(t: E.Tally, frame: str, lifetime_from_payload: float | None = N
     t.n += 1
     rep = {"frame": frame}
     life = m._pkt._lifespan
+    f = frame.split()
+    ref = ref_life(frame[:2], f[-3], f[-1], bool(m._pkt._has_array))
     if lifetime_from_payload is not None:
         L = td(seconds=lifetime_from_payload)
+    elif ref is not None:
+        L = td(seconds=ref)  # the kind's documented lifetime, not whatever the packet object says
     elif life is False or life is True:
         L = None
     else:
@@ -288,7 +332,7 @@ def shard_expiry(arg) -> E.Tally:
     i, n, quick = arg
     logcap.install()
     t = E.Tally()
-    for j, fr in enumerate(kinds()):
+    for j, fr in enumerate(kinds() + list(ot_frames())):
         if j % n == i:
             check_expiry(t, fr)
     # the sync-cycle countdown: every 16-bit word
@@ -533,7 +577,7 @@ def run(ctx) -> None:
         "for different zones/devices 1.5 lifetimes apart, once the older has expired and been read the younger is still reported (both read orders); renewal: every attribute re-announced (same value / other value) "
         "0.5, 1.5, 2+ lifetimes later x an application callback reading at dispatch or not x a read just before or not: afterwards the second message's value is reported",
     )
-    ctx.assumptions += ["a message kind's lifetime L is the library's own pkt._lifespan table (for 1F09: the countdown in the payload)", "grace after 2L: up to 10 s"]
+    ctx.assumptions += ["a message kind's lifetime L is the documented table (pkt_lifespan rules, CODES_SCHEMA 'lifespan' entries, OpenTherm data-id classes) copied into the check as REF_CODE_LIFE / ref_life (for 1F09: the countdown in the payload); in the attribute-level shards L is the stored packet's own", "grace after 2L: up to 10 s"]
 
 
 def replay(rep: dict):
